@@ -30,37 +30,61 @@ Proof.
   intros [H|[H|[H|H]]] E; [congruence|subst c; discriminate|destruct H as [H _]; congruence|exact H].
 Qed.
 
-Section Image.
-Variable m : obj -> cell.
+(* ---- one sequence: its status t and the cells of its n actions, cf i ---- *)
+Section OneSeq.
+Variable cf : nat -> cell.
 
-Definition acell (b q i : nat) : cell := m (OAct (ASeq b q i)).
-Definition sstat (b q : nat) : status := c_st (m (OSeq b q)).
-
-Definition all_done (b q n : nat) : Prop := forall i, i < n -> done (acell b q i).
-Definition all_fresh (b q n : nat) : Prop := forall i, i < n -> acell b q i = cell0.
+Definition all_donef (n : nat) : Prop := forall i, i < n -> done (cf i).
+Definition all_freshf (n : nat) : Prop := forall i, i < n -> cf i = cell0.
 (* clause 7, Failed sequence: Completed actions, exactly one Failed action, untouched ones *)
-Definition fail_pat (b q n : nat) : Prop :=
-  exists j, j < n /\ (forall i, i < j -> done (acell b q i)) /\ failedc (acell b q j)
-            /\ (forall i, j < i -> i < n -> acell b q i = cell0).
+Definition fail_patf (n : nat) : Prop :=
+  exists j, j < n /\ (forall i, i < j -> done (cf i)) /\ failedc (cf j) /\ (forall i, j < i -> i < n -> cf i = cell0).
 
 (* clause 7 (and the hierarchy clause for NotStarted): what the status of a sequence says about its n actions *)
-Definition scons (b q n : nat) : Prop :=
-  match sstat b q with
-  | NotStarted => all_fresh b q n
-  | Completed => all_done b q n
-  | Failed => fail_pat b q n
+Definition sconsf (t : status) (n : nat) : Prop :=
+  match t with
+  | NotStarted => all_freshf n
+  | Completed => all_donef n
+  | Failed => fail_patf n
   | _ => True
   end.
 
 (* a sequence in progress: finished actions, the one in progress (or about to be), untouched ones *)
-Definition run_shape (b q n : nat) : Prop :=
-  exists j, j <= n /\ (forall i, i < j -> done (acell b q i)) /\ (forall i, j < i -> i < n -> acell b q i = cell0).
+Definition run_shapef (n : nat) : Prop :=
+  exists j, j <= n /\ (forall i, i < j -> done (cf i)) /\ (forall i, j < i -> i < n -> cf i = cell0).
 
-Lemma all_done_run_shape b q n : all_done b q n -> run_shape b q n.
+Lemma all_done_run_shape n : all_donef n -> run_shapef n.
 Proof. intro H. exists n. split; [lia|]. split; [exact H|]. intros i H1 H2. lia. Qed.
 
-Lemma fail_pat_run_shape b q n : fail_pat b q n -> run_shape b q n.
+Lemma fail_pat_run_shape n : fail_patf n -> run_shapef n.
 Proof. intros (j & Hj & H1 & _ & H3). exists j. split; [lia|]. split; assumption. Qed.
+End OneSeq.
+
+Lemma sconsf_ext cf cf' t n : (forall i, i < n -> cf' i = cf i) -> sconsf cf t n -> sconsf cf' t n.
+Proof.
+  intro Ha. unfold sconsf. destruct t; auto.
+  - intros H i Hi. rewrite Ha by exact Hi. now apply H.
+  - intros H i Hi. rewrite Ha by exact Hi. now apply H.
+  - intros (j & Hj & H1 & H2 & H3). exists j. split; [exact Hj|]. split; [|split].
+    + intros i Hi. rewrite Ha by lia. now apply H1.
+    + rewrite Ha by exact Hj. exact H2.
+    + intros i Hi Hn. rewrite Ha by exact Hn. now apply H3.
+Qed.
+
+Lemma run_shapef_ext cf cf' n : (forall i, i < n -> cf' i = cf i) -> run_shapef cf n -> run_shapef cf' n.
+Proof.
+  intros Ha (j & Hj & H1 & H2). exists j. split; [exact Hj|]. split.
+  - intros i Hi. rewrite Ha by lia. now apply H1.
+  - intros i Hi Hn. rewrite Ha by exact Hn. now apply H2.
+Qed.
+
+(* ---- read off an image ---- *)
+Section Image.
+Variable m : obj -> cell.
+Definition acell (b q i : nat) : cell := m (OAct (ASeq b q i)).
+Definition sstat (b q : nat) : status := c_st (m (OSeq b q)).
+Definition scons (b q n : nat) : Prop := sconsf (acell b q) (sstat b q) n.
+Definition run_shape (b q n : nat) : Prop := run_shapef (acell b q) n.
 End Image.
 
 (* the whole image: every action of the shape, every sequence of the shape *)
@@ -74,23 +98,11 @@ Record icons (sh : shape) (m : obj -> cell) : Prop := {
 Lemma scons_ext m m' b q n :
   m' (OSeq b q) = m (OSeq b q) -> (forall i, i < n -> m' (OAct (ASeq b q i)) = m (OAct (ASeq b q i))) ->
   scons m b q n -> scons m' b q n.
-Proof.
-  intros Hs Ha. unfold scons, sstat. rewrite Hs. destruct (c_st (m (OSeq b q))); auto.
-  - intros H i Hi. unfold acell. rewrite Ha by exact Hi. now apply H.
-  - intros H i Hi. unfold acell. rewrite Ha by exact Hi. now apply H.
-  - intros (j & Hj & H1 & H2 & H3). exists j. split; [exact Hj|]. unfold acell in *. split; [|split].
-    + intros i Hi. rewrite Ha by lia. now apply H1.
-    + rewrite Ha by exact Hj. exact H2.
-    + intros i Hi Hn. rewrite Ha by exact Hn. now apply H3.
-Qed.
+Proof. intros Hs Ha. unfold scons, sstat. rewrite Hs. now apply sconsf_ext. Qed.
 
 Lemma run_shape_ext m m' b q n :
   (forall i, i < n -> m' (OAct (ASeq b q i)) = m (OAct (ASeq b q i))) -> run_shape m b q n -> run_shape m' b q n.
-Proof.
-  intros Ha (j & Hj & H1 & H2). exists j. split; [exact Hj|]. unfold acell in *. split.
-  - intros i Hi. rewrite Ha by lia. now apply H1.
-  - intros i Hi Hn. rewrite Ha by exact Hn. now apply H2.
-Qed.
+Proof. intro Ha. now apply run_shapef_ext. Qed.
 
 Lemma in_shape_seq_act sh b q i rs : seq_of sh b q = Some rs -> i < length rs -> obj_in_shape sh (OAct (ASeq b q i)) = true.
 Proof.
